@@ -116,12 +116,15 @@ def mergeSorted : List Item → List Item → List Item
     | .gt => x :: mergeSorted (u :: us) xs        -- e = e.Next()
     | .eq => u :: mergeSorted us xs               -- e.Value = uitem; e = e.Next()
 
+/-- `store.cache[key].value` as read by `dirtyItems` (store.go:421-423). -/
+def valueOf (c : CacheState) (k : Bytes) : Option Bytes := ((OMap.get c.cache k).map (·.value)).join
+
 /-- `dirtyItems(start, end)` (store.go:417): the unsorted keys inside the domain
 are removed from `unsortedCache`, paired with their current cache value, sorted,
 and merged into `sortedCache`. -/
 def dirtyItems (c : CacheState) (s e : Option Bytes) : CacheState :=
   let moved := c.unsorted.filter (fun p => inDomain p.1 s e)
-  let items : List Item := moved.map (fun p => (p.1, ((OMap.get c.cache p.1).map (·.value)).join))
+  let items : List Item := moved.map (fun p => (p.1, valueOf c p.1))
   { c with
     unsorted := c.unsorted.filter (fun p => !inDomain p.1 s e)
     sorted := mergeSorted items c.sorted }
@@ -235,6 +238,15 @@ decreasing_by
 
 /-! ## iterators of each store -/
 
+/-- prefix/store.go:79 `newstart = cloneAppend(prefix, start)` (a nil start is empty). -/
+def pfxStart (q : Bytes) (s : Option Bytes) : Option Bytes := some (q ++ s.getD [])
+
+/-- prefix/store.go:81-86 `newend`: `cpIncr(prefix)` for a nil end, else `prefix ++ end`. -/
+def pfxEnd (q : Bytes) (e : Option Bytes) : Option Bytes :=
+  match e with
+  | none => prefixEnd q
+  | some e => some (q ++ e)
+
 namespace Layer
 
 /-- `Iterator` (`asc = true`) / `ReverseIterator`, fully drained. The second
@@ -249,9 +261,7 @@ def iter : Layer → Option Bytes → Option Bytes → Bool → List Item × Lay
     let cs := if asc then items else items.reverse
     (drain asc r.1 cs, cache c' r.2)
   | pfx q p, s, e, asc =>
-    let ns : Option Bytes := some (q ++ s.getD [])
-    let ne : Option Bytes := match e with | none => prefixEnd q | some e => some (q ++ e)
-    let r := p.iter ns ne asc
+    let r := p.iter (pfxStart q s) (pfxEnd q e) asc
     (((r.1.takeWhile (fun it => hasPrefix q it.1)).map (fun it => (it.1.drop q.length, it.2))), pfx q r.2)
 
 /-- the loop body of `writeLocked` (store.go:276-303), keys in sorted order. -/
